@@ -199,10 +199,10 @@ func c05() []*Ob {
 					for _, b := range fn.Blocks {
 						for _, in := range b.Instrs {
 							if sl, ok := in.(*ssa.Slice); ok {
-								if sl.Low != nil && DerivesFrom(sl.Low, func(v ssa.Value) bool { p, ok := v.(*ssa.Parameter); return ok && p.Name() == "offset" }) {
+								if sl.Low != nil && DerivesFrom(sl.Low, func(v ssa.Value) bool { p, ok := v.(*ssa.Parameter); return ok && ParamName(p) == "offset" }) {
 									n++
 								}
-								if sl.High != nil && DerivesFrom(sl.High, func(v ssa.Value) bool { p, ok := v.(*ssa.Parameter); return ok && p.Name() == "size" }) {
+								if sl.High != nil && DerivesFrom(sl.High, func(v ssa.Value) bool { p, ok := v.(*ssa.Parameter); return ok && ParamName(p) == "size" }) {
 									n++
 								}
 							}
